@@ -195,8 +195,9 @@ Print Assumptions C12_other_scripts_untouched_partial.
    of a new entry depends on the order of creation - the final machines are then equal only up to the order of entries, which
    is not proved); (2) turns that spawn (the children's position in the scheduler's list and their ids depend on the order:
    refuted as stated: C12_spawning_turns_commute_refuted); (3) a clock that advances during the turns (wake-up times of sleeping scripts
-   then depend on the order); (4) the lift from two turns to a whole pass (needs the composition of frame transformers and the
-   bookkeeping of erased contexts). *)
+   then depend on the order); (4) C12_round_order_irrelevant_partial lifts the statement to any number of turns in any order, as a sequence of
+   scheduler turns (visit_ctx); the pass loop start_pass2 additionally erases finished contexts, which shifts the indices of the
+   later ones - that bookkeeping is not lifted. *)
 Theorem C12_independent_turns_commute_partial : forall b1 b2 r i j Ri Wi Rj Wj xi ri vi xj rj vj,
   i <> j -> r_out r = [] -> r_tick r = 0%Z ->
   solo_turn b1 b2 r i Ri Wi xi ri vi -> solo_turn b1 b2 r j Rj Wj xj rj vj ->
@@ -231,6 +232,19 @@ Theorem C12_independent_turns_commute_any_log_partial : forall b1 b2 r i j Ri Wi
     r_out m1 = r_out ri ++ r_out rj ++ r_out r /\ r_out m2 = r_out rj ++ r_out ri ++ r_out r.
 Proof. exact independent_turns_commute_any_log. Qed.
 Print Assumptions C12_independent_turns_commute_any_log_partial.
+
+(* Whole rounds: any number of turns of different scripts that are pairwise independent (all_independent: different indices,
+   independent footprints), each a solo_turn from r, can be taken in ANY order (Permutation): every order runs through, every
+   script does in it exactly what it does alone (runs: same result and visit record), and the final machines agree on everything
+   but the order of the log lines and r_active. *)
+Theorem C12_round_order_irrelevant_partial : forall b1 b2 r us us',
+  r_out r = [] -> r_tick r = 0%Z ->
+  Forall (solo b1 b2 r) us -> all_independent us -> Permutation.Permutation us us' ->
+  exists m m', runs b1 b2 r us m /\ runs b1 b2 r us' m' /\ shared_state m = shared_state m'.
+Proof. exact round_order_irrelevant. Qed.
+Print Assumptions C12_round_order_irrelevant_partial.
+Example ex_round_hypotheses : Forall (solo false false ex_machine) [ex_ta; ex_tb] /\ all_independent [ex_ta; ex_tb].
+Proof. exact ex_round. Qed.
 
 (* the restriction "no spawn" is necessary: two scripts that each spawn a child - the children's places in the scheduler's
    list follow the order of the parents' turns, so the final machines differ (as in runtime.cpp: spawn appends to m_contexts;
